@@ -95,6 +95,9 @@ func registry() map[string]PropSpec {
 			{Pkg: ".", Name: "c10_envblock", Quick: map[string]int{"entries": 2, "callervars": 1, "valueshapes": 2}, Thorough: map[string]int{"entries": 2, "callervars": 1, "valueshapes": 4}, Unwind: [2]int{40, 60}, Budget: [2]int{300, 2400},
 				Models: []string{"github.com/buildkite/interpolate.Interpolate=vpModelInterpolate"}, Validate: []string{"interpolate"},
 				What:   "interpolateEnvBlock/Interpolate equal the in-order fold of the property statement: names and values expanded under caller env + earlier entries, rewritten in place, exported to the caller env unless runtime precedence applies, case-(in)sensitive caller env, later step strings expanded under the final env"},
+			{Pkg: ".", Name: "c10_collisions", Quick: map[string]int{"entries": 3}, Thorough: map[string]int{"entries": 4}, Unwind: [2]int{40, 60},
+				Models: []string{"github.com/buildkite/interpolate.Interpolate=vpModelInterpolate"},
+				What:   "names that collide after expansion: no panic, and the block equals the ordered-map model of the same in-place renames (colliding entry dropped, renamed entry keeps its position, dropped entries not visited)"},
 		},
 		Outside: []string{
 			"the ${VAR:-default}/substring/required forms of the interpolate library (outside the model; abandoned paths are counted)",
